@@ -1341,7 +1341,7 @@ def classify(res: dict[str, Any], args: list[str]) -> tuple[str, str] | None:
         e = res.get("exc") or exc_name(tb)
         fr = mypy_frame(tb)
         return f"crash:{e}:{fr}", f"uncaught {e} escaped mypy.api.run at {fr}"
-    if "maximum semantic analysis iteration count reached" in out + err and "Traceback (most recent call last)" not in out:
+    if "maximum semantic analysis iteration count reached" in re.sub(r"\s+", " ", out + err) and "Traceback (most recent call last)" not in out:
         return "internal:semanal-max-iterations", "INTERNAL ERROR: maximum semantic analysis iteration count reached (deferral loop cut off by MAX_ITERATIONS)"
     if "INTERNAL ERROR" in err or "INTERNAL ERROR" in out:
         tb = out[out.find("Traceback (most recent call last)"):] if "Traceback (most recent call last)" in out else out + err
@@ -1849,7 +1849,12 @@ def daemon_session(seed: int, idx: int, corpus: list[Case], steps: int) -> dict[
     events: list[dict[str, Any]] = []
     flags = [f for f in case.flags if f not in ("--pretty",)]
 
+    clock = [int(time.time()) - 100000]
+
     def put(files: dict[str, str]) -> None:
+        # the daemon's watcher compares (size, mtime rounded to seconds): give every edit its own second
+        # (environment assumption of mypy itself, DESIGN section 3) by stamping a strictly increasing logical time
+        clock[0] += 7
         for root, _ds, fs in os.walk(wd):
             for f in fs:
                 os.remove(os.path.join(root, f))
@@ -1858,6 +1863,7 @@ def daemon_session(seed: int, idx: int, corpus: list[Case], steps: int) -> dict[
             os.makedirs(os.path.dirname(path), exist_ok=True)
             with open(path, "w", encoding="utf-8", errors="surrogateescape", newline="") as fh:
                 fh.write(src)
+            os.utime(path, (clock[0], clock[0]))
 
     def start() -> tuple[int, str, bool]:
         return _dmypy(sf, ["start", "--", "--show-traceback", "--no-error-summary", "--no-color-output", "--cache-dir", os.devnull] + flags, wd)
@@ -1869,6 +1875,11 @@ def daemon_session(seed: int, idx: int, corpus: list[Case], steps: int) -> dict[
         os.makedirs(wd)
         put(case.files)
         st, out, hung = start()
+        if st != 0 and flags:
+            # some corpus flags are refused by the daemon (e.g. --follow-imports=silent): not a failure of mypy
+            flags.clear()
+            _dmypy(sf, ["kill"], wd, limit=20)
+            st, out, hung = start()
         if st != 0:
             return {"case": case.name, "events": [{"step": "start", "status": st, "out": out, "hung": hung, "files": case.files, "args": flags}], "steps": 0}
         st0, out0, hung = _dmypy(sf, ["check", "--", "main.py"], wd)
@@ -2030,7 +2041,7 @@ def stage_S(ctx: vlib.Ctx) -> None:
                     if k2 is None:
                         continue
                     key, f.what = k2[0], k2[1]
-            do_shrink = f.mode in ("batch", "subprocess") and not (ctx.quick and key in known) and os.environ.get("VERIF_C20_SHRINK", "1") == "1"
+            do_shrink = f.mode in ("batch", "subprocess") and key not in known and os.environ.get("VERIF_C20_SHRINK", "1") == "1"
             if do_shrink:
                 try:
                     job = shrink(pool, job, key, budget_s=ctx.n(60, 240), log=ctx.log)
@@ -2072,21 +2083,26 @@ def run(ctx: vlib.Ctx) -> None:
         "oracle for stage S reads stdout/stderr text (INTERNAL ERROR, Traceback) and exit status; key = exception type + innermost mypy frame",
     ]
     from extractors import t20
+    stages = os.environ.get("VERIF_C20_STAGES", "TPCS")      # developer switch; the check proper runs all stages
     try:
         vals = t20.extract()
-        t20.generate()
+        if "T" in stages:
+            t20.generate()
         BOUNDS.update(vals)
         ctx.cov["bounds"] = vals
     except Exception as e:  # noqa
         ctx.broke("T", "t20 extractor", repr(e))
         BOUNDS.update({"CORE_WARMUP": 2})
-    ctx.prove("C20/Properties.v", ["C20", "gen", "lib"])
-    try:
-        stage_C(ctx)
-    except Exception:  # noqa
-        import traceback
-        ctx.broke("C", "stage C", traceback.format_exc())
-    stage_S(ctx)
+    if "P" in stages:
+        ctx.prove("C20/Properties.v", ["C20", "gen", "lib"])
+    if "C" in stages:
+        try:
+            stage_C(ctx)
+        except Exception:  # noqa
+            import traceback
+            ctx.broke("C", "stage C", traceback.format_exc())
+    if "S" in stages:
+        stage_S(ctx)
     ok_runs = sum(v for k, v in ctx.cov.get("exit_statuses", {}).items() if k in ("0", "1"))
     ctx.cov["distinct_nontrivial"] = ok_runs + ctx.cov.get("tie_nontrivial", 0)
 
